@@ -62,6 +62,8 @@ def check(chk, fx):
     ownrules.bufref(chk, fx, 6)       # "exactly that slice of the caller's buffer"
     from .. import cexrules
     cexrules.buf(chk, fx)             # the three buffer classes: begin / end / get_view mean the same slice
+    from .. import primrules
+    primrules.prims(chk, fx, "BUFIT", "UTIL")
     from .. import deporder, goldenreg as _gr
     deporder.group(chk, fx, "DEPORD", "dependence order of statements (lexer construction and matching)", _gr.DEP_GROUPS["LEX"])
     from .. import width
